@@ -12,6 +12,9 @@ mvars == <<vars, hist>>
 
 ObjText == "{\"a\":1,\"c\":\"z\"}"
 ObjM == << <<"a", "int", "", WOf(1)>>, <<"c", "str", "z", W0>> >>
+\* an object carrying members of the JSON types the scalar setters cannot create
+ObjText2 == "{\"r\":1.5,\"n\":null,\"o\":{\"x\":1},\"l\":[true]}"
+ObjM2 == << <<"l", "arr", "[true]", W0>>, <<"n", "null", "null", W0>>, <<"o", "obj", "{\"x\":1}", W0>>, <<"r", "real", "real", W0>> >>
 V(t, name, val, replace, jcls, jm, jcanon) ==
   [t |-> t, name |-> name, val |-> val, replace |-> replace, jcls |-> jcls, jm |-> jm, jcanon |-> jcanon]
 
@@ -26,7 +29,8 @@ Jsons == { V("json", n, ObjText, r, "obj", ObjM, ObjText) : n \in Names, r \in {
     \cup { V("json", n, "7", r, "scalar", <<>>, NONE) : n \in Names, r \in {0, 1} }
     \cup { V("json", n, "{\"a\":1,\"a\":2}", r, "malformed", <<>>, NONE) : n \in {"b", NONE}, r \in {0, 1} }
     \cup { V("json", n, NONE, r, "null", <<>>, NONE) : n \in {"a", NONE}, r \in {0} }
-Gets == { V(t, n, IF t = "int" THEN W0 ELSE NONE, 0, NONE, <<>>, NONE) : t \in {"int", "str", "bool", "json"}, n \in Names }
+    \cup { V("json", NONE, ObjText2, r, "obj", ObjM2, ObjText2) : r \in {0, 1} }
+Gets == { V(t, n, IF t = "int" THEN W0 ELSE NONE, 0, NONE, <<>>, NONE) : t \in {"int", "str", "bool", "json"}, n \in Names \cup {"r", "n", "o", "l"} }
 Dels == { V("int", n, W0, 0, NONE, <<>>, NONE) : n \in Names }
 
 FullAlphabet == {[k |-> "set", v |-> v] : v \in Scalars \cup Jsons}
@@ -83,9 +87,10 @@ GetPure == [][ (Stepped /\ LastOp.k = "get") => Map' = Map ]_mvars
 \* nameless object merge: missing-only without replace, all with replace
 MergeRule ==
   [][ (Stepped /\ LastOp.k = "set" /\ LastOp.v.t = "json" /\ LastOp.v.jcls = "obj" /\ NameBad(LastOp.v.name)) =>
-        /\ DOMAIN Map' = DOMAIN Map \cup {"a", "c"}
-        /\ \A n \in DOMAIN Map : (n \notin {"a", "c"} \/ LastOp.v.replace = 0) => Map'[n] = Map[n]
-        /\ LastOp.v.replace # 0 => Map'["a"] = <<"int", "", WOf(1)>> ]_mvars
+        LET jm == MapOfList(LastOp.v.jm) IN
+        /\ DOMAIN Map' = DOMAIN Map \cup DOMAIN jm
+        /\ \A n \in DOMAIN Map : (n \notin DOMAIN jm \/ LastOp.v.replace = 0) => Map'[n] = Map[n]
+        /\ \A n \in DOMAIN jm : (n \notin DOMAIN Map \/ LastOp.v.replace # 0) => Map'[n] = jm[n] ]_mvars
 
 Emit ==
   IF Mode = "graph"
